@@ -89,6 +89,13 @@ func genC05(repo string) (string, error) {
 			return "", err
 		}
 	}
+	// a dc-location that loses its members: the allocator group is dropped in memory, nothing is removed from etcd
+	popt := goast.SkelOpt{Calls: set("SetUpAllocator", "deleteAllocatorGroup", "Reset", "cancel", "delete", "Commit", "LeaderTxn", "Delete", "OpDelete", "NewSlowLogTxn"), Conds: true, Branches: true}
+	for _, fn := range []string{"allocatorPatroller", "deleteAllocatorGroup"} {
+		if err := o.skeleton(am, "AllocatorManager", fn, "skel_am_"+fn, popt); err != nil {
+			return "", err
+		}
+	}
 	if err := o.skeleton(gs, "Server", "GetDCLocationInfo", "skel_handler_GetDCLocationInfo", goast.SkelOpt{
 		Calls: set("IsLeader", "GetDCLocationInfo", "ClusterDCLocationChecker", "GetMaxLocalTSO"), Assigns: set("MaxTs", "Suffix"), Conds: true, Branches: true}); err != nil {
 		return "", err
